@@ -853,8 +853,8 @@ PROPS['C17'] = dict(
     nontrivial=lambda lines: any(l.startswith('replayfrom') or 'from=' in l for l in lines),
     features=lambda lines: {('replay rmidx' if 'rmidx=' in l else 'replay all indexes') for l in lines if l.startswith('replayfrom')}
     | {t for l in lines[:1] for t in l.split() if t.startswith(('key=', 'patch=', 'bloom='))},
-    rule=("for every directory of the committed corpus (written by the pinned release: key sizes 4/8/33/128, bloom "
-          "off/on, deletion markers, metadata, stale and fresh index files, a two-level B+tree) and several subsets of "
+    rule=("for every directory of the committed corpus (written by the pinned release: key sizes 1/4/8/33/128/1000, bloom "
+          "off/on/with more stored bits than the configured limit and queried after an off-load, deletion markers, metadata, stale and fresh index files, a two-level B+tree) and several subsets of "
           "index files removed (thorough: 12 more random subsets, eager and lazy init): the generating history is replayed "
           "on model and current code, the directory is replaced by the pinned one, and every recorded query is asked again; "
           "plus: open with a foreign key size (nothing served, blobs rejected), a foreign blob format version (init fails "
